@@ -72,7 +72,14 @@ def cases(tier, rng, dist):
 def call(p, m, spec, plus1, dtype=float):
     d = interned(np.array([[float(v) for v in r] for r in m]).astype(dtype))
     pv = interned(np.array([float(x) for x in p]))
-    return list(guarded(lambda: float(NPC.npc(pv, d, make_comb(spec), plus1=plus1))))
+    d0 = d.copy(); pv0 = pv.copy()
+    r = list(guarded(lambda: float(NPC.npc(pv, d, make_comb(spec), plus1=plus1))))
+    if not ((d == d0).all() and (pv == pv0).all()):
+        # whether the call returned or raised, the caller's arrays must be as they were (they are restored here so that the
+        # shared objects do not carry the damage into later cases)
+        d[...] = d0; pv[...] = pv0
+        r.append("ARGUMENTS-MODIFIED")
+    return r
 
 
 def comb2(c):
@@ -170,6 +177,9 @@ def oracle(c, o):
                         "cls": "npc:history-dependent"}
         return None
     r1, r2 = o["r1"], o["r2"]
+    for r in (r1, r2):
+        if r and r[-1] == "ARGUMENTS-MODIFIED":
+            return {"why": f"npc ({'raised ' + str(r[1]) if r[0] != 'ok' else 'returned'}) left the caller's p-values or distr modified (p={c['p']}, combiner {c['comb']})", "cls": "npc:mutates-arguments"}
     m = [[Fraction(v) for v in r] for r in c["distr"]]; p = [Fraction(x) for x in c["p"]]
     e1 = exact_npc(p, m, c["comb"], c["plus1"])
     p2, m2, _ = second(c)
